@@ -347,32 +347,16 @@ func (c Config) MonotonicState(s *ss.State, p int, a *ss.Attempt) (string, strin
 	return "", ""
 }
 
-// StateSanity of the spec, read per resource (the spec's Sum over a *set* of views collapses equal
-// views, which only makes its left side smaller; the per-resource form below implies it... no:
-// it is the spec's formula exactly, with TLA+ set semantics).
+// The spec's StateSanity,
 //
 //	Sum({VIEW_FN(state[self]) : self \in RESOURCE_IDS}) <= Sum({writesPending[self] + writesAchieved[self] : self \in NODE_IDS})
-func (c Config) StateSanity(s *ss.State) (string, string) {
-	views, writes := map[int]bool{}, map[int]bool{}
-	for n := 1; n <= c.NumNodes; n++ {
-		views[sum(c.state(s, n))] = true
-		l := s.Locals[n-1]
-		writes[int(l["Node.writesPending"].AsNumber())+int(l["Node.writesAchieved"].AsNumber())] = true
-	}
-	lhs, rhs := 0, 0
-	for v := range views {
-		lhs += v
-	}
-	for w := range writes {
-		rhs += w
-	}
-	if lhs > rhs {
-		return "nestedcrdtimpl/StateSanity", fmt.Sprintf("sum of distinct views %d > sum of distinct (pending+achieved) writes %d", lhs, rhs)
-	}
-	return "", ""
-}
-
-// ViewBoundedByWrites is the set-free reading of StateSanity: no resource ever shows more
+//
+// sums over *sets*: two nodes with the same number of writes collapse to one summand on the
+// right.  TLC refutes it on the spec itself (NODE_IDS = {1,2}, NUM_OPS = 2: views {1,2} vs writes
+// {1}), so it is not an invariant the generated Go could be held to; the sanity it is after is
+// checked in the set-free form below.
+//
+// ViewBoundedByWrites (StateSanity without the set collapse): no resource ever shows more
 // increments than the nodes have issued (pending or achieved) in total.
 func (c Config) ViewBoundedByWrites(s *ss.State) (string, string) {
 	total := 0
